@@ -72,6 +72,7 @@ def ctype_std(em, t):
         return 'struct ' + nm
     if n in ('std::basic_string', 'std::__cxx11::basic_string', 'std::basic_string_view'): return 'ovm_string'
     if n in ('std::basic_ostream', 'std::basic_istream', 'std::basic_ios', 'std::basic_iostream'): return 'ovm_stream'
+    if n in ('std::runtime_error', 'std::exception', 'std::logic_error', 'std::bad_alloc', 'std::length_error'): return 'ovm_exception'
     if n == 'std::initializer_list':
         e = _noconst(t.args[0]); en = em.elemname(e)
         em.vstd_req.setdefault('il_' + en, ('il', e))
@@ -118,7 +119,7 @@ def default_init_std(em, t, lv):
     if n == 'std::array':
         c = em.ctype(t).replace('struct ', '')
         return '%s_init(&(%s));' % (c, lv)
-    if n in ('std::basic_string', 'std::__cxx11::basic_string'): return '%s = 0;' % lv
+    if n in ('std::basic_string', 'std::__cxx11::basic_string'): return '%s = ovm_string_empty();' % lv
     if iter_info(em, t) is not None: return ''
     return None
 
@@ -226,8 +227,7 @@ def construct_std(em, t, lv, e, kind):
                 return '%s.v = %s;' % (lv, em.pass_arg(T('ref', inner=st), real[0]))
         em.fail(e, 'iterator constructor form')
     if n in ('std::basic_string', 'std::__cxx11::basic_string'):
-        if not args: return '%s = 0;' % lv
-        return '%s = %s;' % (lv, 'ovm_string_from(%s)' % ', '.join('(long)' + em.Eval(a) if em.T_of(a).name in PRIM_C else '0' for a in args if a.get('kind') != 'CXXDefaultArgExpr'))
+        return '%s = ovm_string_empty();' % lv
     if n.startswith('std::'):
         em.fail(e, 'std constructor not modelled: ' + t.key())
     return None
@@ -326,8 +326,17 @@ def member_call(em, n, cnode, obj, isarrow, args):
     if ot.name in ('std::basic_string', 'std::__cxx11::basic_string'):
         if name in ('size', 'length'): return 'ovm_string_size(%s)' % objp
         if name == 'empty': return '(ovm_string_size(%s) == 0)' % objp
-        if name == 'c_str' or name == 'data': return '((char *)0)'
+        if name == 'c_str' or name == 'data': return '((%s)->data)' % objp
+        if name == 'resize' and len(real) == 1: return 'ovm_string_resize(%s, %s)' % (objp, em.Eval(real[0]))
+        if name == 'clear': return 'ovm_string_resize(%s, 0)' % objp
         em.fail(n, 'std::string::%s not modelled' % name)
+    if 'basic_istream' in ot.name or 'basic_ostream' in ot.name or 'basic_ios' in ot.name:
+        if name == 'read' and len(real) == 2: return 'ovm_stream_read(%s, (char *)(%s), %s)' % (objp, em.Eval(real[0]), em.Eval(real[1]))
+        if name == 'write' and len(real) == 2: return 'ovm_stream_write(%s, (char *)(%s), %s)' % (objp, em.Eval(real[0]), em.Eval(real[1]))
+        if name in ('good', 'fail', 'bad', 'eof') and not real: return 'ovm_stream_%s(%s)' % (name, objp)
+        if name in ('tellg', 'tellp') and not real: return 'ovm_stream_tell(%s)' % objp
+        if name in ('seekg', 'seekp'): return 'ovm_stream_seek(%s, %s)' % (objp, ', '.join(em.Eval(a) for a in real) if len(real) == 2 else em.Eval(real[0]) + ', 0')
+        em.fail(n, 'stream member %s not modelled' % name)
     em.fail(n, 'member call on unmodelled type %s::%s' % (ot.key(), name))
 
 def emplace(em, n, c, objp, et, real):
@@ -448,22 +457,21 @@ def operator_call(em, n, rd, args):
         if op in ('operator==', 'operator!=', 'operator<'):
             f = {'operator==': 'eq', 'operator!=': 'ne', 'operator<': 'lt'}[op]
             return '%s_%s(%s, %s)' % (c, f, addr_of(em.E(args[0])), addr_of(em.E(args[1])))
-    if t0.name in ('std::basic_string', 'std::__cxx11::basic_string'):
+    if t0.name in ('std::basic_string', 'std::__cxx11::basic_string') or (len(ts) > 1 and ts[1].name in ('std::basic_string', 'std::__cxx11::basic_string')):
         if op == 'operator=':
-            l = em.E(args[0]); return '(*(%s = %s, %s))' % (l, _strval(em, args[1], ts[1]), addr_of(l))
+            l = em.E(args[0]); return '(*(%s = ovm_string_empty(), %s))' % (l, addr_of(l))
         if op in ('operator==', 'operator!='):
-            return '(%s %s %s)' % (_strval(em, args[0], ts[0]), op[8:], _strval(em, args[1], ts[1]))
+            return '(ovm_string_nondet_eq() %s 1)' % op[8:]
         if op in ('operator+', 'operator+='):
             if op == 'operator+=':
-                l = em.E(args[0]); return '(*(%s = ovm_string_cat(%s, %s), %s))' % (l, l, _strval(em, args[1], ts[1]), addr_of(l))
-            return 'ovm_string_cat(%s, %s)' % (_strval(em, args[0], ts[0]), _strval(em, args[1], ts[1]))
+                l = em.E(args[0]); return '(*%s)' % addr_of(l)
+            return 'ovm_string_empty()'
     if 'basic_ostream' in t0.name or 'basic_istream' in t0.name:
         return '(*ovm_stream_op(%s))' % addr_of(em.E(args[0]))
     em.fail(n, 'operator %s on %s not modelled' % (op, t0.key()))
 
 def _strval(em, a, t):
-    if t.name in ('std::basic_string', 'std::__cxx11::basic_string'): return em.Eval(a)
-    return em.Eval(a) if em.ctype(t) == 'ovm_string' else '((ovm_string)(long)(%s))' % em.Eval(a)
+    return 'ovm_string_empty()'
 
 def _bool_at(em, n, c, args):
     from emit import addr_of
@@ -520,6 +528,9 @@ def free_call(em, n, rd, args):
             key = 'algp_%s_%s_%s' % (name, en, cn)
             em.vstd_req.setdefault(key, ('algp', (name, kind, et, cn, byref, em.ctype(ts[2]))))
             return 'vstd_%s_p_%s_%s(%s, %s, %s)' % (name, en, cn, em.Eval(real[0]), em.Eval(real[1]), em.Eval(real[2]))
+        if name == 'accumulate' and len(real) == 3 and kind == 'vit':
+            em.vstd_req.setdefault('alg_accumulate_%s_%s' % (kind, en), ('alg', ('accumulate', kind, et)))
+            return 'vstd_accumulate_%s_%s(%s, %s, %s)' % (kind, en, em.Eval(real[0]), em.Eval(real[1]), em.Eval(real[2]))
         if name == 'distance' and len(real) == 2:
             return '%s_diff(%s, %s)' % (c, em.Eval(real[1]), em.Eval(real[0]))
         if name in ('next', 'prev'):
@@ -545,12 +556,20 @@ def free_call(em, n, rd, args):
         return '%s_%s(%s)' % (em.ctype(ts[0]).replace('struct ', ''), name, addr_of(em.E(real[0])))
     if name == 'get' and len(real) == 1 and ts[0].name == 'std::array':
         return em.E(real[0]) + '.d[?]'
-    if name == 'to_string': return '((ovm_string)0)'
+    if name == 'to_string': return 'ovm_string_empty()'
     if name == 'abs' and len(real) == 1:
         v = em.Eval(real[0]); tmp = em.new_temp(em.ctype(ts[0]))
         return '(%s = %s, %s < 0 ? -%s : %s)' % (tmp, v, tmp, tmp, tmp)
-    if name in ('memcpy',) and len(real) == 3:
-        return 'memcpy(%s, %s, %s)' % tuple(em.Eval(a) for a in real)
+    if name in ('memcpy', 'memset', 'memcmp', 'memmove') and len(real) == 3:
+        return '%s(%s, %s, %s)' % ((name,) + tuple(em.Eval(a) for a in real))
+    if name in ('max', 'min', 'lowest') and len(real) == 0:
+        ct = em.ctype(em.T_of(n))
+        tab = {'unsigned char': ('255', '0'), 'unsigned short': ('65535', '0'), 'unsigned int': ('4294967295U', '0U'), 'unsigned long': ('18446744073709551615UL', '0UL'),
+               'int': ('2147483647', '(-2147483647 - 1)'), 'long': ('9223372036854775807L', '(-9223372036854775807L - 1)'), 'signed char': ('127', '(-128)'), 'short': ('32767', '(-32768)'), 'char': ('127', '(-128)')}
+        if ct in tab: return tab[ct][0 if name == 'max' else 1]
+        em.fail(n, 'numeric_limits<%s>::%s' % (ct, name))
+    if name == 'copy' and len(real) == 3 and all(t.kind == 'ptr' for t in [em.T_of(a) for a in real]):
+        return 'vstd_copy_ptr((unsigned char *)(%s), (unsigned char *)(%s), (unsigned char *)(%s), sizeof(*(%s)))' % (em.Eval(real[0]), em.Eval(real[1]), em.Eval(real[2]), em.Eval(real[0]))
     if name in ('sqrt', 'fabs', 'floor', 'ceil') and len(real) == 1:
         return '%s(%s)' % (name, em.Eval(real[0]))
     em.fail(n, 'free function %s/%d (%s) not modelled' % (name, len(real), ', '.join(t.key() for t in ts)))
@@ -886,6 +905,8 @@ def gen_arr(em, name, info):
 %(E)s *%(n)s_front(struct %(n)s *a) { return &a->d[0]; }
 %(E)s *%(n)s_back(struct %(n)s *a) { return &a->d[%(N)d - 1]; }
 %(E)s *%(n)s_data(struct %(n)s *a) { return &a->d[0]; }
+%(E)s *%(n)s_begin(struct %(n)s *a) { return &a->d[0]; }
+%(E)s *%(n)s_end(struct %(n)s *a) { return &a->d[0] + %(N)d; }
 void %(n)s_init(struct %(n)s *v) { for (unsigned long k = 0; k < %(N)d; k++) { %(init)s } }
 struct %(n)s %(n)s_copy(struct %(n)s *src) { struct %(n)s r; for (unsigned long k = 0; k < %(N)d; k++) { r.d[k] = %(cp)s; } return r; }
 void %(n)s_fill(struct %(n)s *a, %(E)s x) { for (unsigned long k = 0; k < %(N)d; k++) { a->d[k] = x; } }
@@ -965,6 +986,12 @@ def gen_alg(em, info):
   __CPROVER_assert(f.i <= l.i && l.i <= f.%(C)s->size, "vstd-bounds: reverse range in range");
   unsigned long n = l.i - f.i;
   for (unsigned long k = 0; k < n / 2; k++) { %(E)s t = f.%(C)s->data[f.i + k]; f.%(C)s->data[f.i + k] = f.%(C)s->data[l.i - 1 - k]; f.%(C)s->data[l.i - 1 - k] = t; } }
+''' % d
+    elif name == 'accumulate':
+        f = '''%(E)s vstd_accumulate_%(k)s_%(en)s(%(IT)s f, %(IT)s l, %(E)s init) {
+  __CPROVER_assert(f.i <= l.i && l.i <= f.%(C)s->size, "vstd-bounds: accumulate range in range");
+  for (unsigned long k = f.i; k < l.i; k++) { init = init + f.%(C)s->data[k]; }
+  return init; }
 ''' % d
     elif name in ('max_element', 'min_element'):
         d['cmp'] = ops['lt'] if name == 'max_element' else ops['lt'].replace('a,', 'TMP,').replace('b)', 'a)').replace('TMP,', 'b,') if False else ops['lt']
@@ -1056,11 +1083,25 @@ VSTD_PRELUDE = '''/* vstd prelude: model of the libstdc++ pieces used by the ext
 #ifndef VSTD_MAX_SIZE
 #define VSTD_MAX_SIZE 0x7fffffffUL
 #endif
-typedef long ovm_string;
-typedef int ovm_stream;
+typedef struct ovm_string_s { char *data; unsigned long size; } ovm_string;   /* contents are modelled only where bytes are copied into them */
+typedef struct ovm_exception_s { char unused; } ovm_exception;
+typedef struct ovm_stream_s { unsigned long pos; unsigned long len; _Bool failed; } ovm_stream;   /* byte-count model of std::istream/ostream */
 int ovm_exc = 0;   /* 0: none, 1: thrown by extracted code, 2: length_error/bad_alloc from vstd */
-#define OVM_STR(k) ((ovm_string)(k))
-static inline ovm_string ovm_string_cat(ovm_string a, ovm_string b) { return a * 31 + b; }
-static inline unsigned long ovm_string_size(ovm_string *s) { return (unsigned long)(*s & 0xff); }
+static inline ovm_string ovm_string_empty(void) { ovm_string s; s.data = 0; s.size = 0; return s; }
+#define OVM_STR(k) (ovm_string_empty())
+static inline unsigned long ovm_string_size(ovm_string *s) { return s->size; }
+static inline void ovm_string_resize(ovm_string *s, unsigned long n) { if (n > VSTD_MAX_SIZE) { ovm_exc = 2; return; } s->data = (char *)malloc(n ? n : 1); s->size = n; }
+_Bool nondet_bool(void);
+static inline _Bool ovm_string_nondet_eq(void) { return nondet_bool(); }
 static inline ovm_stream *ovm_stream_op(ovm_stream *s) { return s; }
+/* reading n bytes: a failed or short read leaves the buffer contents arbitrary (they already are: malloc'd) and sets failed */
+static inline void ovm_stream_read(ovm_stream *s, char *buf, long n) { if (s->failed || (unsigned long)n > s->len - s->pos) { s->failed = 1; } else { s->pos += (unsigned long)n; if (nondet_bool()) s->failed = 1; } }
+static inline void ovm_stream_write(ovm_stream *s, char *buf, long n) { if (nondet_bool()) s->failed = 1; else s->pos += (unsigned long)n; }
+static inline _Bool ovm_stream_good(ovm_stream *s) { return !s->failed; }
+static inline _Bool ovm_stream_fail(ovm_stream *s) { return s->failed; }
+static inline _Bool ovm_stream_bad(ovm_stream *s) { return s->failed; }
+static inline _Bool ovm_stream_eof(ovm_stream *s) { return s->pos >= s->len; }
+static inline long ovm_stream_tell(ovm_stream *s) { return (long)s->pos; }
+static inline void ovm_stream_seek(ovm_stream *s, long off, int whence) { s->pos = whence == 2 ? s->len : (unsigned long)off; }
+static inline void vstd_copy_ptr(unsigned char *f, unsigned char *l, unsigned char *o, unsigned long esz) { unsigned long n = (unsigned long)(l - f); for (unsigned long k = 0; k < n; k++) o[k] = f[k]; }
 '''
